@@ -378,6 +378,46 @@ def run_one(ck, prog):
             bins = [bb for bb, t in c4.cfg.calls(lambda t: (t.get("callee") or "").endswith(("tmalloc_small", "tmalloc_large")))]
             ck.ob("C04.4", "bins-tried-before-growth", len(bins) >= 2 and all(sb in c4.cfg.reachable_from(b) for b in bins) and not any(b in c4.cfg.reachable_from(sb) for b in bins), fn=im["path"], detail=f"tree-bin attempts that precede sys_alloc: {len(bins)}")
 
+        # a source of free space is tried WHENEVER it is non-empty: the tree attempts of inner_malloc depend on the allocator's state only
+        # through the tests that make them necessary (no fitting small bin: (smallmap >> idx) [& 3] == 0; the designated victim too small)
+        # and possible (treemap != 0). Any further condition on the state - "only when the small bins are empty" - hides free tree chunks
+        # behind an unrelated bin and sends the request on to top and the OS
+        def state_guard_kind(f):
+            if f[0] != "cmp":
+                return "other" if any(isinstance(x, tuple) and mentions(x, c4.prov, lambda z: z[0] == "field" and z[2] in STATE_FIELDS) for x in f[1:]) else None
+            both = (f[2], f[3])
+            flds = {z[2] for x in both for z in walk_deep(x, c4.prov) if z[0] == "field" and z[2] in STATE_FIELDS}
+            if not flds:
+                return None
+            zero = 0 in (fold(f[2]), fold(f[3]))
+            if flds == {"smallmap"}:
+                return "no-fitting-small-bin" if f[1] == "Eq" and zero and any(mentions(x, c4.prov, lambda z: z[0] == "bin" and z[1] in ("Shr", "ShrUnchecked")) for x in both) else "other"
+            if flds == {"dvsize"}:
+                return "dv-too-small" if f[1] in ("Gt", "Lt") else "other"
+            if flds == {"treemap"}:
+                return "tree-non-empty" if f[1] == "Ne" and zero else "other"
+            return "other"
+        STATE_FIELDS = ("smallmap", "treemap", "dvsize", "dv", "topsize", "top", "footprint", "release_checks")
+        for bb, t in c4.cfg.calls(lambda t: (t.get("callee") or "").endswith(("Dlmalloc::tmalloc_small", "Dlmalloc::tmalloc_large"))):
+            kinds = [(state_guard_kind(f), f) for f in panics.dominating_facts(c4, bb)]
+            extra = [f for k, f in kinds if k == "other"]
+            which = t["callee"].split("::")[-1]
+            ck.ob("C04.4", f"{which}|tried-whenever-the-tree-is-non-empty", any(k == "tree-non-empty" for k, _ in kinds) and not extra, fn=im["path"], site=c4.site(bb),
+                  detail=f"the tree attempt depends on further allocator state: {[(f[1], show(f[2])[:50], show(f[3])[:50]) if f[0] == 'cmp' else (f[0], show(f[1])[:60]) for f in extra]}")
+    tl = prog.fns.get(DL + "tmalloc_large")
+    if ck.anchor("C04.4", "tmalloc_large", tl):
+        c4l = prog.ctx(tl)
+        # the larger tree bins are searched whenever no fitting chunk was found in the request's own bin (not: whenever that bin is empty)
+        nxt = [bb for bb, t in c4l.cfg.calls(lambda t: (t.get("callee") or "").endswith("::left_bits"))]
+        ck.ob("C04.4", "tmalloc_large|anchor|next-bin-search", len(nxt) == 1, fn=tl["path"], detail=f"left_bits sites: {len(nxt)}")
+        for bb in nxt:
+            fs = panics.dominating_facts(c4l, bb)
+            nulls = [f for f in fs if f[0] == "truth" and isinstance(f[1], tuple) and f[1][0] == "call" and (f[1][1] or "").endswith("::is_null")]
+            on_vars = [f for f in nulls if isinstance(strip_casts(f[1][2][0]), tuple) and strip_casts(f[1][2][0])[0] == "var"]
+            others = [f for f in fs if f not in on_vars]
+            ck.ob("C04.4", "tmalloc_large|larger-bins-searched-whenever-nothing-fitting-was-found", bool(on_vars) and all(f[2] is True for f in on_vars) and not others, fn=tl["path"], site=c4l.site(bb),
+                  detail=f"the search of the larger tree bins must depend only on the walk's result (t and v null), found further conditions: {[show(f[1])[:70] if f[0] == 'truth' else (f[1], show(f[2])[:40], show(f[3])[:40]) for f in others]}")
+
     # ---- C04.5 segments not forgotten ------------------------------------------------------------------------------------------------------
     ad = prog.fns.get(DL + "add_segment")
     if ck.anchor("C04.5", "add_segment", ad):
